@@ -1301,11 +1301,12 @@ func (c *Ctx) checkBtreeSlicePrimitives(rel string) {
 }
 
 // checkBtreeLookup: the read side of the tree.
-//   items.find(x): r = sort.Search(len(s), i -> x.Less(s[i])); reports (r-1, true) exactly when r > 0 and
-//                  !s[r-1].Less(x) (i.e. s[r-1] == x under the order), else (r, false)
-//   node.get(k):   (i, found) = items.find(k); found -> items[i]; else children[i].get(k) when there are children; else nil
-//   min / max:     descend children[0] / children[len-1]; return items[0] / items[len-1]
-//   BTree.Get/Has/Min/Max: root nil -> nil, else the node-level function on the root with the caller's key
+//
+//	items.find(x): r = sort.Search(len(s), i -> x.Less(s[i])); reports (r-1, true) exactly when r > 0 and
+//	               !s[r-1].Less(x) (i.e. s[r-1] == x under the order), else (r, false)
+//	node.get(k):   (i, found) = items.find(k); found -> items[i]; else children[i].get(k) when there are children; else nil
+//	min / max:     descend children[0] / children[len-1]; return items[0] / items[len-1]
+//	BTree.Get/Has/Min/Max: root nil -> nil, else the node-level function on the root with the caller's key
 func (c *Ctx) checkBtreeLookup(rel string) {
 	noInl := func(*ssa.Function, int) bool { return false }
 	cfg := TraceConfig{Inline: noInl}
@@ -1500,7 +1501,9 @@ func (c *Ctx) checkBtreeLookup(rel string) {
 			}
 			if call == nil {
 				// allowed only for the empty tree
-				if !(t.Ret[0].isNilConst() && hasFact(t.factsBefore(len(t.Events)), func(f Fact) bool { return strings.Contains(f.X.Key(), ".root") && f.Op == token.EQL && f.Y.isNilConst() })) {
+				if !(t.Ret[0].isNilConst() && hasFact(t.factsBefore(len(t.Events)), func(f Fact) bool {
+					return strings.Contains(f.X.Key(), ".root") && f.Op == token.EQL && f.Y.isNilConst()
+				})) {
 					good = false
 				}
 				continue
